@@ -87,7 +87,7 @@ LEVELS = {
     "C01": {"text": "Theorems: every gated handler returns not-an-authority for any sender but the admin (self-removal excepted, only for a bonded validator that leaves a signer behind); through the tx wrapper the state is unchanged. Model tied to the app by history differential + twin execution; RPC census by Tie/Census.v.", "note": _NOTE, "technique": "Coq proof (case analysis on the handlers, tx-wrapper lemma) + differential testing against the real SimApp"},
     "C02": {"text": "Theorems at every reachable, non-halted state (induction over the block list through every handler, BeginBlock slashing, both EndBlocker loops, maturity, genesis): CometBFT's next set = last validator powers keyed by consensus key; every member is an unjailed bonded validator at tokens/10^6 > 0 (no hypothesis on max_validators); when max_validators does not bind the set is exactly the unjailed validators with power; index exact and complete; consensus keys distinct. Tied to the app by history differential; monitor = real UpdateWithChangeSet set vs bonded+unjailed validators with the power query.", "note": _NOTE + " Partial: the cap-binding case is a known finding, not covered by the theorem.", "technique": "Coq proof by induction over histories of an inductive invariant + differential testing against the real SimApp"},
     "C03": {"text": "Theorems: a successful SetPOAPower writes exactly the requested tokens/shares/delegation and re-keys exactly the target's index entry; frame lemma for every other validator; history level: the last power of every validator is the power of its tokens if it is not jailed (cap not binding), every update of a block belongs to a validator whose last power changes in that block and says what it becomes, hence only validators whose jailed flag or tokens changed in the block are mentioned. Monitors: SetPower reflected in the next set, removed stays out, updates only for targets/jailed/unjailed/cap, non-targets unchanged.", "note": _NOTE, "technique": "Coq proof (gmap frame lemmas) + differential testing against the real SimApp"},
-    "C04": {"text": "Theorems over all histories: chain invariant, unbonding-queue invariant and pool invariant hold in every reachable state; x/staking's EndBlocker returns no error of any kind; CometBFT never refuses the updates for a duplicate key, a negative power, the removal of a non-member, nor (if downtime leaves somebody: H-alive) an empty set; BeginBlock never fails if a block interval is shorter than the unbonding period (H-time); altogether no history halts except by CometBFT's total-power bound; last-bonded guard. Tied to the app by history differential incl. maturities; monitor = real FinalizeBlock errors + real UpdateWithChangeSet verdict.", "note": _NOTE + " Environment hypotheses H-time, H-alive, H-maxvals are explicit.", "technique": "Coq proof (loop invariant of ApplyAndReturnValidatorSetUpdates) + differential testing against the real SimApp and CometBFT's ValidatorSet"},
+    "C04": {"text": "Theorems over all histories: chain invariant, unbonding-queue invariant and pool invariant hold in every reachable state; x/staking's EndBlocker returns no error of any kind; CometBFT never refuses the updates for a duplicate key, a negative power, the removal of a non-member, nor (if downtime leaves somebody: H-alive) an empty set; BeginBlock never fails if a block interval is shorter than the unbonding period (H-time); the total power stays within CometBFT's bound for key pools up to 125000; altogether no history halts; last-bonded guard. Tied to the app by history differential incl. maturities; monitor = real FinalizeBlock errors + real UpdateWithChangeSet verdict.", "note": _NOTE + " Environment hypotheses H-time, H-alive, H-maxvals are explicit.", "technique": "Coq proof (loop invariant of ApplyAndReturnValidatorSetUpdates) + differential testing against the real SimApp and CometBFT's ValidatorSet"},
     "C05": {"text": "Theorems: safe SetPower above height 1 succeeds only if 100*sum < 30*cached (uint64 arithmetic written out); every change adds |new - power held at that point|; BeginBlocker zeroes the sum and refreshes the total; failed txs roll back (C06); unsafe skips only the test; history level: LastTotalPower = sum of the last validator powers in every reachable state, and throughout a block the cached total is that sum as the previous block left it.", "note": _NOTE, "technique": "Coq proof (lia over Z with explicit wrap) + differential testing with boundary powers against the real SimApp"},
     "C06": {"text": "Theorems: a failing tx yields the pre-state or the pre-state with bumped sequences (enumerating ante rejection and every handler failure); every handler and the EndBlocker commute with replacing the sequence numbers, hence within a block every other transaction gets the same result and the block commits the same state (field by field, sequence numbers apart), the same updates and the same CometBFT sets with or without the failing tx. Atomicity is BaseApp's: assumed in the model's deliver_tx and validated by twin execution with per-module store hashes.", "note": _NOTE + " Partial by nature: the rollback mechanism lives in the SDK.", "technique": "Coq proof over the model's tx wrapper + twin execution (translation validation of atomicity)"},
     "C07": {"text": "Theorems over message trees of unbounded depth/fan-out (nested induction): the staking filter rejects exactly the transactions containing a forbidden message through any carrier; tied to the running decorator by differential execution on random trees and to the app's registry by census.", "note": _NOTE, "technique": "Coq proof by nested induction over rose trees + differential testing of the model against the Go decorator"},
